@@ -231,7 +231,8 @@ class Interp:
                     env[o["declId"]] = {"(%s + %s*%s)" % (aff_txt(cur), a_[0], a_[1]): 1.0}
                     return [(env, conds)]
                 raise Unsupported("add_term on %s" % render(o))
-            if nm in ("NarrowVarBounds", "FixAsTrue", "PropagateResultOfInitExpr", "RedefineVariable", "AddWarning", "TurnOffAutoLinking", "AddEntry", "set_var_lb_context", "set_var_ub_context"):
+            if nm in ("NarrowVarBounds", "FixAsTrue", "PropagateResultOfInitExpr", "RedefineVariable", "AddWarning", "TurnOffAutoLinking", "AddEntry", "set_var_lb_context", "set_var_ub_context",
+                      "narrow_result_bounds", "set_result_type", "set_result_var"):
                 self.emitted.append((list(conds), each, ("call", nm) + tuple(self.show(self.value(a, env)) for a in call_args(e))))
                 return [(env, conds)]
             g = self.byfull.get(e.get("calleeFull") or "")
@@ -415,6 +416,8 @@ class Interp:
                     return aff_scale(a, 1.0 / cb)
                 return {"(%s)/(%s)" % (aff_txt(a), aff_txt(b)): 1.0}
             raise Unsupported("arithmetic on non-scalars")
+        if k == "BinaryOperator" and e.get("op") in ("<", "<=", ">", ">=", "==", "!=", "&&", "||"):
+            return {"[" + self.cond_txt(e) + "]": 1.0}
         if k == "InitListExpr":
             vals = [self.value(x, env) for x in kids(e)]
             if len(vals) == 1 and isinstance(vals[0], Vec) and ("std::array" in (e.get("ct") or "") or "[" in (e.get("ct") or "")):
@@ -442,6 +445,8 @@ class Interp:
             return {self.cond_txt(e): 1.0}
         if k == "CXXDefaultArgExpr":
             return {"<default>": 1.0}
+        if k == "CXXThisExpr":
+            return {"this": 1.0}
         raise Unsupported("expression %s: %s" % (k, render(e)[:50]))
 
     def index(self, b, ix, base_node):
@@ -492,7 +497,8 @@ class Interp:
             return {"result(%s)" % (self.show_con(d),): 1.0}
         if nm in ("fixed_value", "lb", "ub", "MakeComplementVar", "MakeFixedVar", "is_fixed", "fabs", "floor", "ceil", "round", "isfinite", "bigMDefault", "ComparisonEps",
                   "lb_array", "ub_array", "Infty", "MinusInfty", "is_binary_var", "is_var_integer", "constant_term", "Convert2Var", "rhs", "get_binary_var", "get_binary_value",
-                  "GetBody", "get_constraint", "GetConstraint", "GetExpression", "GetVariable", "GetContext", "GetAffineExpr", "empty", "front", "back", "begin", "end"):
+                  "GetBody", "get_constraint", "GetConstraint", "GetExpression", "GetVariable", "GetContext", "GetAffineExpr", "empty", "front", "back", "begin", "end",
+                  "is_integer_value", "var_type", "GetModel", "ub_min_array", "lb_max_array", "common_type"):
             a = [self.show(self.value(x, env)) for x in args]
             o = ""
             if e["k"] == "CXXMemberCallExpr":
@@ -503,6 +509,11 @@ class Interp:
             return {"%s%s(%s)" % (o, nm, ",".join(str(x) for x in a)): 1.0}
         if nm == "GetMC":
             return {"MC": 1.0}
+        if nm in ("max", "min", "pow") and len(args) == 2:
+            a = [str(self.show(self.value(x, env))) for x in args]
+            if nm != "pow":
+                a = sorted(a)
+            return {"%s(%s,%s)" % (nm, a[0], a[1]): 1.0}
         if nm.startswith("operator ") and e["k"] == "CXXMemberCallExpr":
             return self.value(call_object(e), env)
         if nm in ("move", "forward") and len(args) == 1:
